@@ -93,11 +93,6 @@ fn tls_echo() -> RunResult {
     let protect_b = !server_native && !sim::flip("unprotected.server", 1, 8);
     let cap_ab = if protect_a { cap_ab.max(32 * 1024) } else { cap_ab };
     let cap_ba = if protect_b { cap_ba.max(32 * 1024) } else { cap_ba };
-    let (a, b) = SimStream::pair(cap_ab, cap_ba, fa, fb);
-    a.tx.set_quiet_to(protect_a);
-    b.tx.set_quiet_to(protect_b);
-    a.tx.0.borrow_mut().hold_until_flush = sim::flip("hold.ab", 1, 3);
-    b.tx.0.borrow_mut().hold_until_flush = sim::flip("hold.ba", 1, 3);
     let base_a = sim::range("base.a", 1, 512) as usize;
     let base_b = sim::range("base.b", 1, 512) as usize;
     let big = sim::flip("payload.big", 1, 16);
@@ -105,6 +100,14 @@ fn tls_echo() -> RunResult {
     let resp = gen_payload("resp.len", if big { 40_000 } else { 600 });
     let wchunk = 1 + sim::range("w.chunk", 0, 2047) as usize;
     let rchunk = 1 + sim::range("r.chunk", 0, 2047) as usize;
+    // a big payload in 1-byte records through 1-byte channels is just slow (tens of polls per
+    // byte), not a livelock: keep the step bound meaningful by giving big payloads some room
+    let (wchunk, cap_ab, cap_ba) = if big { (wchunk.max(256), cap_ab.max(1024), cap_ba.max(1024)) } else { (wchunk, cap_ab, cap_ba) };
+    let (a, b) = SimStream::pair(cap_ab, cap_ba, fa, fb);
+    a.tx.set_quiet_to(protect_a);
+    b.tx.set_quiet_to(protect_b);
+    a.tx.0.borrow_mut().hold_until_flush = sim::flip("hold.ab", 1, 3);
+    b.tx.0.borrow_mut().hold_until_flush = sim::flip("hold.ba", 1, 3);
     sim::log(|| format!("client {} / server {}; caps {cap_ab}/{cap_ba}; adapter base {base_a}/{base_b}; request {} bytes, response {} bytes; a {fa:?} b {fb:?}", if client_native { "native-tls" } else { "rustls" }, if server_native { "native-tls" } else { "rustls" }, req.len(), resp.len()));
 
     let ta: Transport = Box::pin(AsyncStream::with_capacity(base_a, a.clone()));
